@@ -142,6 +142,7 @@ pub fn drive(name: &str, out: &str, args: &[String]) {
         "kamino" => kamino_driver(out, seed, arg(args, 1, 30)),
         "drift" => drift_driver(out, seed, arg(args, 1, 30)),
         "solend" => solend_driver(out, seed, arg(args, 1, 30)),
+        "edge" => crate::drv2::edge_driver(out, seed, arg(args, 1, 40)),
         _ => {
             eprintln!("unknown driver {}", name);
             std::process::exit(2);
@@ -230,7 +231,7 @@ fn panic_driver(out: &str, seed: u64, n: u64, len: u64) {
 }
 
 
-fn pick<'a, T>(rng: &mut StdRng, v: &'a [T]) -> &'a T {
+pub fn pick<'a, T>(rng: &mut StdRng, v: &'a [T]) -> &'a T {
     &v[rng.gen_range(0..v.len())]
 }
 
@@ -359,7 +360,7 @@ fn ledger_driver(out: &str, seed: u64, n: u64, len: u64) {
 // ------------------------------------------------------------------------------------------------
 // risk driver: randomized configurations, amounts binary-searched to the accept/reject boundary
 // ------------------------------------------------------------------------------------------------
-fn base_setup() -> Vec<Value> {
+pub fn base_setup() -> Vec<Value> {
     vec![
         json!({"op":"init_fee_state","admin":"feeadmin","wallet":"feewallet","prog_fixed":"0.01","prog_rate":"0.025","liq_max_fee":"0.05"}),
         json!({"op":"init_group","group":"G1","admin":"admin"}),
@@ -454,7 +455,7 @@ fn rand_bank_o(rng: &mut StdRng, name: &str, collateral: bool, o: BankOpts, out:
 
 /// largest x in [0, hi] for which `mk(x)` is accepted, given that rejections are `reject_err`.
 /// Returns (lo_accepted, hi_rejected) with hi = lo + 1, or None when no clean boundary exists.
-fn search_boundary(r: &mut Recorder, mk: &dyn Fn(u64) -> Value, hi0: u64, reject_err: &str) -> Option<(u64, u64)> {
+pub fn search_boundary(r: &mut Recorder, mk: &dyn Fn(u64) -> Value, hi0: u64, reject_err: &str) -> Option<(u64, u64)> {
     let ev = r.probe(&mk(hi0));
     if ev["res"] == "ok" || ev["err"] != reject_err {
         return None;
@@ -1809,9 +1810,23 @@ fn recv_driver(out: &str, seed: u64, n: u64) {
                 nacc += 1;
             }
         }
-        // outside any bracket the receiver has no rights
+        if debt[1] > 0 {
+            // a second start that is not the one the end belongs to
+            r.act(tx(vec![start("A1"), start("A3"), end("A1")]));
+            r.act(tx(vec![start("A3"), rep("A3", 1, false), start("A1"), end("A3")]));
+        }
+        // outside any bracket the receiver has no rights, and neither has anybody else
         r.act(wd("A1", 1, false));
         r.act(rep("A1", 1, false));
+        for who in ["liquidator", "U7"] {
+            for acct in ["A1", "A3"] {
+                r.fork(&mut |r: &mut Recorder| {
+                    r.act(json!({"op":"withdraw","acct":acct,"bank":"C1","amount":1,"signer":who}));
+                    r.act(json!({"op":"repay","acct":acct,"bank":"D1","amount":1,"signer":who}));
+                    r.act(json!({"op":"borrow","acct":acct,"bank":"D1","amount":1,"signer":who}));
+                });
+            }
+        }
         r.act(json!({"op":"pulse_health","acct":"A1"}));
     }
     eprintln!("recv driver: {} scenarios, {} brackets accepted, {} rejected, {} seize boundaries, {} events", n, nacc, nrej, nbound, r.events);
